@@ -177,7 +177,7 @@ class C17(Scenario):
                    "expressions use + - * /const comparisons and/or/not over fields whose names do not collide with math.*",
                    "bare scalars are only used with single-variable expressions"]
     expected_faults = ["memo_interleave"]
-    expected_probes = ["memo_repeat_identical", "memo_repeat_equal_copy", "memo_change", "memo_array_batch", "memo_equal_value_other_type", "string_first_scalar",
+    expected_probes = ["memo_repeat_identical", "memo_repeat_equal_copy", "memo_change", "memo_array_batch", "memo_equal_value_other_type", "memo_function_fault", "string_first_scalar",
                        "string_first_object", "string_first_dict", "wrapper_orders"]
 
     # ------------------------------------------------------------------ generation
@@ -203,6 +203,9 @@ class C17(Scenario):
             specs = [tree(0), tree(1)]
             crit = specmod.critical_values(specs[0])
             recs = [specmod.gen_record(d, crit, {"no_none": True}) for _ in range(d.randint(3, 10))]
+            if d.chance(0.4):
+                # a record for which the wrapped functions fail (a pure failure: decided by the argument alone)
+                recs[d.randrange(len(recs))][d.pick(["x", "y"])] = gate.POISON
             steps = []
             last = None
             for si in range(s.randint(4, 30)):
@@ -373,6 +376,8 @@ class C17(Scenario):
                     w.bump("probe_memo_change")
                     chg += 1
                 last_row = (st["rec"], datum)
+                if any(isinstance(v, float) and v == gate.POISON for v in datum.values()):
+                    w.bump("probe_memo_function_fault")
                 o1 = call(trees[tr].fill, datum, st["w"])
                 o2 = call(twins[tr].fill, dict(datum), st["w"])  # the twin always gets a fresh, equal record
             else:
